@@ -40,7 +40,8 @@ LEVEL_TEXT = ("Coq theorems over (a) a world model {python stream, numpy stream,
               "to the code by evaluating it inside Coq against the implementation (seed/spawn states bit for bit; observed stream "
               "movements and reproducibility of every stochastic API against the static footprints; components obtained through copy.copy / copy.deepcopy / "
               ".copy() / .deepcopy() / the rng setter, before or after the seeding, compared with the same program without copies - no copy route and no setter "
-              "is excused any more)")
+              "is excused any more; the pymoo operators of pymoo_addon and the meiosis / random-problem helpers are also driven directly with a caller-owned Generator, "
+              "RandomState and None on inputs that reach every draw site, so that a draw site misbehaving for one generator kind or on one branch has a concrete witness)")
 LEVEL_NOTE = ("trusted: Coq kernel + vm_compute; the ast translator (over-approximating reference graph: attribute access on objects of "
               "unknown class is linked to every member of that name; methods invoked implicitly by operators are checked separately "
               "to be source-free); hand-entered third-party facts (pymoo 0.6.2 minimize() seeds default_rng(seed), None without a seed argument, "
@@ -64,7 +65,16 @@ RULE = ("case kinds from one PRNG: seedmodel (seed in boundary set {0,1,2^32-1,2
         "sbits omitted (default). Fail-closed audit by introspection: all 117 classes/functions/methods accepting rng are executed by a component, inherit "
         "select() from an executed family base (checked), or are skipped with a reason; copy methods of stochastic classes must match the lifecycle table: "
         "every class accepting rng must inherit the generator-sharing __deepcopy__ of one of the six base classes and define no other copy method, or be "
-        "listed with all its routes (G_E_Phenotyping)")
+        "listed with all its routes (G_E_Phenotyping). "
+        "Operators and helpers handed the caller's generator DIRECTLY (minimize() only ever hands a Generator): every function / method of pymoo_addon that is handed "
+        "random_state (sampling, exchange crossover and mutation - also through pymoo's Crossover.do / Mutation.do -, the integer SBX / PM wrappers, the memetic mutations' "
+        "_do / do and their hillclimb / reduced_exchange / tiled_choice helpers; MutatorF cannot be constructed: skipped, checked) and the helpers that were reached with one "
+        "generator kind only (breed.prot.mate.util.mat_*, core.util.mate.dense_*, the four Random*SelectionProblem.from_object) are components of their own, run as "
+        "isolated cases with a caller-owned Generator, RandomState and MT19937 Generator and as repro cases with None (global stream after prng.seed), alone, in programs "
+        "and in prior histories, on inputs where every draw site is reached (parents differing in >= 2 / exactly 2 / 1 / 0 elements, individuals with >= 2 loci outside the "
+        "operator's set space so that the exchange mutation fires, hill-climb probability 1 / 0 / 0.5, a hill climb with non-dominated neighbours and one started on the "
+        "optimum which falls back on the exchange mutation, whole tiles and a remainder); the predicate additionally demands that the source handed over was consumed and "
+        "that the operator changed its input; fail-closed audit by introspection of pymoo_addon (a new function handed random_state must be driven or skipped with a reason)")
 TRUSTED = ["harness/translate/c08_entropy.py (ast translator, fail closed on unclassified references to entropy-bearing modules)",
            "harness/translate/c08_kernel.py (kernel expressions of prng.seed / prng.spawn / minimize(seed=...) located by statement shape, fail closed; python int() on a non-negative rational = floor)",
            "pymoo 0.6.2 Algorithm.setup: random_state = default_rng(seed), seed None unless passed to minimize(): OS entropy iff a minimize() call site passes no seed (entered by hand, checked syntactically at every call site, cross-checked dynamically)",
@@ -435,6 +445,244 @@ def _ocs_problem(par, rng):
         prob = prot.problem(pgmat=pg, gmat=pg, ptdf=None, bvmat=bv, gpmod=None, t_cur=0, t_max=1)
     return {"C": _arr(numpy.asarray(prob.C))}
 
+
+# ---------------------------------------------------------------------------------------------- pymoo operators driven DIRECTLY
+# minimize() always hands its operators a numpy Generator, so a draw site of pymoo_addon that misbehaves only for a RandomState, only for
+# random_state=None (global stream), or only on a branch the short optimiser runs rarely reach is invisible through the optimisers.  Every
+# operator method / helper of pymoo_addon that is handed random_state is therefore also a component of its own: called with the caller's
+# generator as it is (Generator, RandomState, None) on inputs built so that EVERY draw site is reached - parents that differ in >= 2
+# elements (the integer draw and the choice of the exchange crossover), individuals with >= 2 loci outside the operator's set space (the
+# exchange mutations only touch such loci), both sides of the hill-climb coin (phc 1 / 0 / 0.5), a hill climb that finds non-dominated
+# neighbours and one started on the optimum (falls back on the exchange mutation).  The output carries "consumed" (the source handed over -
+# the global numpy stream for None - moved during the call) and "fired" (the operator changed its input): pred demands both.
+def _src_state(rng):
+    return _rstate(rng if rng is not None else numpy.random.mtrand._rand)
+
+def _op_fixture(par, nobj=2):
+    nsup = 14; nvar = par.get("nvar", 4)
+    w = (numpy.arange(nsup) * 37 % 101 + 1) / 8.0                 # the weights of _dummy_problem
+    order = numpy.argsort(w, kind="stable")
+    opt = numpy.sort(order[:nvar])                                 # the optimum of the 1-objective problem
+    foreign = numpy.sort(numpy.concatenate([order[:2], order[-2:]]))     # elements of the problem's space that are NOT in the operator's set space
+    setspace = numpy.setdiff1d(numpy.arange(nsup), foreign)
+    g = _lrng(par.get("dseed", 1) + 31)
+    n = par.get("nind", 6)
+    X = numpy.empty((n, nvar), dtype=int)
+    for i in range(n):
+        X[i, :2] = g.choice(foreign, 2, replace=False)             # >= 2 loci outside the set space in every individual
+        X[i, 2:] = g.choice(setspace, nvar - 2, replace=False)
+        g.shuffle(X[i])
+    prob = _dummy_problem("subset", nobj, {"ndecn": nvar, "nsup": nsup})
+    return prob, setspace, X, opt
+
+def _quiet(f, *a, **k):
+    import io, contextlib
+    with contextlib.redirect_stdout(io.StringIO()):               # (one operator prints its progress)
+        return f(*a, **k)
+
+def _opcall(rng, f):
+    """f(random_state) -> (list of result arrays, list of input arrays or None): result, whether the source moved, whether anything changed"""
+    s0 = _src_state(rng)
+    res, ref = _quiet(f, rng)
+    s1 = _src_state(rng)
+    out = {"res": [_arr(numpy.asarray(r)) for r in res], "consumed": s0 != s1}
+    if ref is not None:
+        out["fired"] = bool(any(numpy.asarray(a).shape != numpy.asarray(b).shape or numpy.any(numpy.asarray(a) != numpy.asarray(b)) for a, b in zip(res, ref)))
+    return out
+
+def _pmo():
+    import pybrops.opt.algo.pymoo_addon as M
+    return M
+
+def _op_tiled(par, rng):
+    a, size = par.get("a", 4), par.get("size", 10)               # whole tiles and a remainder
+    return _opcall(rng, lambda rs: ([_pmo().tiled_choice(a, size, rs), _pmo().tiled_choice(a, a - 1, rs)], None))
+
+def _op_sampling(par, rng):
+    prob, setspace, X, opt = _op_fixture(par)
+    M = _pmo()
+    def f(rs):
+        return [M.SubsetRandomSampling(setspace, False)._do(prob, par.get("nsamp", 5), random_state=rs),
+                M.SubsetRandomSampling(setspace, True)._do(prob, 3, random_state=rs)], None
+    return _opcall(rng, f)
+
+def _xover_parents(par):
+    g = _lrng(par.get("dseed", 1) + 32); nvar = par.get("nvar", 5)
+    pairs = []
+    a = numpy.arange(nvar); b = numpy.arange(nvar) + nvar; pairs.append((a, b))                    # disjoint: nvar candidates
+    c = g.permutation(3 * nvar)
+    pairs.append((c[:nvar].copy(), numpy.concatenate([c[:nvar - 3], c[nvar:nvar + 3]])))               # three differ
+    pairs.append((c[:nvar].copy(), g.permutation(c[:nvar])))                                        # same subset: nothing to exchange
+    pairs.append((c[:nvar].copy(), numpy.concatenate([c[:nvar - 2], c[nvar:nvar + 2]])))               # exactly two differ: the smallest integer range
+    pairs.append((c[:nvar].copy(), numpy.concatenate([c[:nvar - 1], c[nvar:nvar + 1]])))               # one differs: no draw of a count
+    return numpy.stack([numpy.stack([p[0] for p in pairs]), numpy.stack([p[1] for p in pairs])])    # (2, n_matings, n_var)
+
+def _op_xover(par, rng):
+    X = _xover_parents(par)
+    prob = _dummy_problem("subset", 1, {"ndecn": X.shape[2], "nsup": 3 * X.shape[2]})
+    return _opcall(rng, lambda rs: ([_pmo().ReducedExchangeCrossover()._do(prob, X.copy(), random_state=rs)], [X]))
+
+def _op_xover_do(par, rng):
+    """through pymoo's Crossover.do (which itself requires a generator: not run with None)"""
+    from pymoo.core.population import Population
+    X = _xover_parents(par)
+    prob = _dummy_problem("subset", 1, {"ndecn": X.shape[2], "nsup": 3 * X.shape[2]})
+    pop = [[Population.new("X", X[k, i][None, :])[0] for k in range(2)] for i in range(X.shape[1])]
+    def f(rs):
+        if rs is None: rs = numpy.random.mtrand._rand
+        return [_pmo().ReducedExchangeCrossover().do(prob, pop, random_state=rs).get("X")], None
+    return _opcall(rng, f)
+
+def _op_mut(clsname, how):
+    """how: '_do' (three calls: every individual hill-climbed, none, a coin), 'do' (pybrops' own do / pymoo's Mutation.do), 'hillclimb', 'reduced_exchange'"""
+    def run(par, rng):
+        from pymoo.core.population import Population
+        M = _pmo(); C = getattr(M, clsname)
+        prob, setspace, X, opt = _op_fixture(par)
+        prob1 = _op_fixture(par, 1)[0]
+        if clsname == "MultiObjectiveStochasticHillClimberMutation":
+            # this operator calls problem._evaluate on a (1, n_var) matrix itself: a vectorised (not elementwise) problem with the same two objectives
+            from pymoo.core.problem import Problem
+            w = (numpy.arange(14) * 37 % 101 + 1) / 8.0
+            class Vec(Problem):
+                def _evaluate(self, x, out, *a, **k):
+                    x = numpy.atleast_2d(numpy.asarray(x)).astype(int)
+                    out["F"] = numpy.column_stack([w[x].sum(1), -w[13 - x].sum(1)])
+            prob = Vec(n_var=X.shape[1], n_obj=2, xl=0, xu=13)
+        def mk(phc):
+            if clsname == "ReducedExchangeMutation": return C(setspace, prob_var=0.75)
+            if clsname in ("MultiObjectiveStochasticHillClimberMutation", "MultiObjectiveSteepestDescentHillClimberMutation"): return C(setspace, phc, prob_var=0.75)
+            if clsname == "MultiObjectiveStochasticDescentHillClimberMutation": return C(setspace, phc, par.get("nhc", 6), prob_var=0.75)
+            return C(setspace, phc, par.get("nhc", 6), prob_var=0.75)          # StochasticHillClimberMutation, MutatorA, MutatorB: (setspace, phc, nhcstep)
+        def f(rs):
+            if how == "_do":
+                if clsname == "ReducedExchangeMutation": ops = [mk(None)]
+                else: ops = [mk(1.0), mk(0.0), mk(0.5)]
+                return [op._do(prob, X.copy(), random_state=rs) for op in ops], [X] * len(ops)
+            if how == "do":          # population in, population out (the two descent mutations define their own do)
+                res = []
+                for phc in (1.0, 0.5):
+                    out = mk(phc).do(prob, Population.new("X", X.copy()), random_state=rs)
+                    res.append(out.get("X"))
+                return res, [X, X]
+            if how == "pymoo_do":    # pymoo's Mutation.do around the operator's _do (requires a generator: the global one stands in for None)
+                r2 = rs if rs is not None else numpy.random.mtrand._rand
+                return [mk(0.5).do(prob, Population.new("X", X.copy()), random_state=r2).get("X")], [X]
+            if how == "reduced_exchange":
+                op = mk(0.5)
+                return [op.reduced_exchange(prob, X[i].copy(), random_state=rs) for i in range(len(X))], [X[i] for i in range(len(X))]
+            if how == "hillclimb":
+                op = mk(0.5)
+                pop = Population.new("X", X.copy())
+                indiv = clsname in ("MultiObjectiveSteepestDescentHillClimberMutation", "MultiObjectiveStochasticDescentHillClimberMutation")
+                res = []
+                for i in range(len(X)):
+                    r = op.hillclimb(prob, pop[i] if indiv else X[i].copy(), random_state=rs)
+                    res.append(r.get("X") if indiv else r)
+                if not indiv and clsname != "MultiObjectiveStochasticHillClimberMutation":
+                    # started on the optimum of a 1-objective problem: no neighbour survives, falls back on the exchange mutation
+                    # (whose draws need loci outside the set space: two of the optimum's elements are)
+                    res.append(op.hillclimb(prob1, opt.copy(), random_state=rs))
+                return res, None
+            raise ValueError(how)
+        return _opcall(rng, f)
+    return run
+
+def _op_intop(which):
+    """IntegerSimulatedBinaryCrossover / IntegerPolynomialMutation: pymoo's operators followed by a rounding; pymoo's _do needs a generator
+    (with None it would take OS entropy by pymoo's own default): the global one stands in for None"""
+    def run(par, rng):
+        M = _pmo()
+        prob = _dummy_problem("integer", 1, {"ndecn": 5})
+        g = _lrng(par.get("dseed", 1) + 33)
+        def f(rs):
+            r2 = rs if rs is not None else numpy.random.mtrand._rand
+            if which == "sbx":
+                X = g.integers(0, 10, size=(2, 6, 5)).astype(float)
+                return [M.IntegerSimulatedBinaryCrossover(prob_var=0.9)._do(prob, X.copy(), random_state=r2)], None
+            X = g.integers(0, 10, size=(6, 5)).astype(float)
+            return [M.IntegerPolynomialMutation(prob_var=0.9)._do(prob, X.copy(), random_state=r2)], None
+        return _opcall(rng, f)
+    return run
+
+_PA = "opt.algo.pymoo_addon."
+OPERATOR_COMPS = {
+    "op:tiled_choice": ([_PA + "tiled_choice"], _op_tiled),
+    "op:SubsetRandomSampling._do": ([_PA + "SubsetRandomSampling._do"], _op_sampling),
+    "op:ReducedExchangeCrossover._do": ([_PA + "ReducedExchangeCrossover._do"], _op_xover),
+    "op:ReducedExchangeCrossover.do": ([_PA + "ReducedExchangeCrossover._do"], _op_xover_do),
+    "op:ReducedExchangeMutation._do": ([_PA + "ReducedExchangeMutation._do"], _op_mut("ReducedExchangeMutation", "_do")),
+    "op:ReducedExchangeMutation.do": ([_PA + "ReducedExchangeMutation._do"], _op_mut("ReducedExchangeMutation", "pymoo_do")),
+    "op:IntegerSimulatedBinaryCrossover._do": ([_PA + "IntegerSimulatedBinaryCrossover._do"], _op_intop("sbx")),
+    "op:IntegerPolynomialMutation._do": ([_PA + "IntegerPolynomialMutation._do"], _op_intop("pm")),
+}
+for _c, _hows in (("MultiObjectiveStochasticHillClimberMutation", ("_do", "hillclimb", "pymoo_do")),
+                  ("MultiObjectiveSteepestDescentHillClimberMutation", ("_do", "hillclimb", "do")),
+                  ("MultiObjectiveStochasticDescentHillClimberMutation", ("_do", "hillclimb", "do")),
+                  ("StochasticHillClimberMutation", ("_do", "hillclimb", "reduced_exchange", "pymoo_do")),
+                  ("MutatorA", ("_do", "hillclimb", "reduced_exchange", "pymoo_do")),
+                  ("MutatorB", ("_do", "hillclimb", "reduced_exchange", "pymoo_do"))):
+    for _how in _hows:
+        _m = "_do" if _how == "pymoo_do" else _how
+        _st = [_PA + "%s.%s" % (_c, _m)]
+        if _m in ("_do", "do") and not (_c.startswith("MultiObjectiveS") and _c != "MultiObjectiveStochasticHillClimberMutation" and _m == "_do"):
+            _st.append(_PA + _c + ".hillclimb")
+        if _m == "do": _st.append(_PA + _c + "._do")
+        if _c in ("StochasticHillClimberMutation", "MutatorA", "MutatorB") and _m in ("_do", "hillclimb"): _st.append(_PA + _c + ".reduced_exchange")
+        if _c in ("MutatorA", "MutatorB") and _m in ("_do", "hillclimb"): _st.append(_PA + "tiled_choice")
+        OPERATOR_COMPS["op:%s.%s" % (_c, "do" if _how == "pymoo_do" else _how)] = (_st, _op_mut(_c, _how))
+# operator methods of pymoo_addon that are NOT driven directly, with the reason (the audit checks the reason where it can)
+OPERATOR_SKIPPED = {
+    "MutatorF._do": "MutatorF cannot be constructed (its __init__ calls super(StochasticHillClimberMutation, self) on a class that is not a subclass: TypeError, "
+                    "checked by the audit on every run); covered statically only",
+    "MutatorF.hillclimb": "see MutatorF._do", "MutatorF.reduced_exchange": "see MutatorF._do",
+}
+
+# ---------------------------------------------------------------------------------------------- rng-accepting helpers called DIRECTLY
+# The meiosis helpers are reached by the mating protocols with self.rng (never None, and core.util.mate only ever with the global
+# generator from the EMBV matrix), the random-selection problem factories by the protocols (never None): here they are handed the
+# caller's generator themselves, every kind.
+def _meiosis_args(par):
+    pg = _pgmat(dict(par, ntaxa=par.get("ntaxa", 5), nvrnt=par.get("nvrnt", 8)))
+    g = _lrng(par.get("dseed", 1) + 41)
+    return pg.mat, g.integers(0, pg.ntaxa, size=par.get("nsel", 4)), g.integers(0, pg.ntaxa, size=par.get("nsel", 4)), pg.vrnt_xoprob
+
+def _matefn(modname, fname):
+    def run(par, rng):
+        from pybrops.core.random.prng import global_prng
+        f = getattr(__import__(modname, fromlist=[fname]), fname)
+        geno, fsel, msel, xo = _meiosis_args(par)
+        def call(rs):
+            r = rs if rs is not None else global_prng            # (the helpers have no default: None is not accepted)
+            if fname.endswith("meiosis") or fname.endswith("dh"): return [f(geno, fsel, xo, r)], None
+            return [f(geno, geno, fsel, msel, xo, r)], None
+        return _opcall(rng, call)
+    return run
+
+def _from_object(kind):
+    def run(par, rng):
+        import pybrops.breed.prot.sel.prob.RandomSelectionProblem as R
+        C = getattr(R, "Random%sSelectionProblem" % kind)
+        ntaxa, ntrait = par.get("ntaxa", 5), par.get("ntrait", 2)
+        if kind == "Subset":
+            ndecn = 2; space = numpy.arange(ntaxa); lo = numpy.repeat(0, ndecn); up = numpy.repeat(ntaxa - 1, ndecn)
+        else:
+            ndecn = ntaxa; lo = numpy.repeat(0.0 if kind == "Real" else 0, ndecn); up = numpy.repeat(1.0 if kind == "Real" else 1, ndecn); space = numpy.stack([lo, up])
+        def call(rs):
+            prob = C.from_object(ntaxa=ntaxa, ntrait=ntrait, ndecn=ndecn, decn_space=space, decn_space_lower=lo, decn_space_upper=up, nobj=ntrait, rng=rs)
+            return [prob.rbv], None
+        return _opcall(rng, call)
+    return run
+
+DIRECT_FN_COMPS = {}
+for _f in ("mat_meiosis", "mat_dh", "mat_mate"):
+    DIRECT_FN_COMPS["fn:" + _f] = (["breed.prot.mate.util." + _f], _matefn("pybrops.breed.prot.mate.util", _f))
+for _f in ("dense_meiosis", "dense_dh", "dense_cross"):
+    DIRECT_FN_COMPS["fn:" + _f] = (["core.util.mate." + _f], _matefn("pybrops.core.util.mate", _f))
+for _k in ("Subset", "Binary", "Integer", "Real"):
+    DIRECT_FN_COMPS["fn:Random%sSelectionProblem.from_object" % _k] = (["breed.prot.sel.prob.RandomSelectionProblem.Random%sSelectionProblem.from_object" % _k], _from_object(_k))
+DRAW_CHECKED = tuple(OPERATOR_COMPS) + tuple(DIRECT_FN_COMPS)      # components whose output says whether the source was consumed / the operator fired
+
 COMPONENTS = {
     "TwoWayCross": _mate("TwoWayCross", 2), "TwoWayDHCross": _mate("TwoWayDHCross", 2),
     "ThreeWayCross": _mate("ThreeWayCross", 3), "ThreeWayDHCross": _mate("ThreeWayDHCross", 3),
@@ -491,6 +739,8 @@ COMPONENTS = {
     "G1NormSel": _obj(["breed.prot.sel.UnconstrainedGeneralized1NormGenomicSelection.Generalized1NormGenomicSelection.select"], True, _g1norm_build, _g1norm_use),
     "OCSProblem": (["breed.prot.sel.OptimalContributionSelection.OptimalContributionSubsetSelection.problem"], True, _ocs_problem),
 }
+for _n, (_st, _run) in list(OPERATOR_COMPS.items()) + list(DIRECT_FN_COMPS.items()):
+    COMPONENTS[_n] = (_st, True, _run)
 
 # ---------------------------------------------------------------------------------------------- object lifecycle (copies)
 # Stochastic components are objects holding a generator.  A step of a program may obtain its object through a copy route
@@ -797,6 +1047,10 @@ CLEAN_RNG = ["TwoWayCross", "TwoWayDHCross", "ThreeWayCross", "ThreeWayDHCross",
              "SubsetCfg", "BinaryCfg", "IntegerCfg", "RealCfg", "SubsetMateCfg", "BinaryMateCfg", "IntegerMateCfg", "RealMateCfg",
              "HillClimber", "UnconHill"] + list(GA_PYMOO_OPS) \
             + list(GA_SUBSET_OPS) + list(GA_MEMETIC) + list(SELPROT_COMPS) + list(HELPER_COMPS) + ["UnconSetGA"]          # the repaired components are ordinary cases now
+# pymoo's own SBX / PM followed by a rounding: no generator reference in pybrops code (empty footprint): predicate only, single-step programs
+PRED_ONLY_COMPS = ("op:IntegerSimulatedBinaryCrossover._do", "op:IntegerPolynomialMutation._do")
+DIRECT_COMPS = [c for c in DRAW_CHECKED if c not in PRED_ONLY_COMPS]      # operators / helpers handed the caller's generator directly
+CLEAN_RNG = CLEAN_RNG + DIRECT_COMPS
 GLOBAL_ONLY = ["spawn", "apply_jitter", "EMBV", "SortingHillClimber", "SortingAlgo"]
 FINDING_COMPS = list(DEAP_COMPS) + list(NO_RNG_HELPER_COMPS)
 LIFE_COMPS = [c for c in CLEAN_RNG if c in OBJ_COMPS]              # object components that take part in the copy lifecycle
@@ -833,6 +1087,11 @@ def _rand_par(rng, comp):
     elif comp == "spawn": par.update({"reqs": rng.choice([[None], [1], [0, 2], [None, 3]])})
     elif comp == "apply_jitter": par.update({"n": rng.choice([2, 3, 4])})
     elif comp == "EMBV": par.update({"nprogeny": rng.choice([1, 3]), "nrep": rng.choice([1, 2])})
+    elif comp == "op:tiled_choice": par.update({"a": rng.choice([2, 4, 5]), "size": rng.choice([5, 10, 13])})
+    elif comp.startswith("op:ReducedExchangeCrossover"): par.update({"nvar": rng.choice([4, 5, 8])})
+    elif comp.startswith("op:"): par.update({"nvar": rng.choice([4, 5]), "nind": rng.choice([6, 8]), "nhc": rng.choice([3, 6, 9]), "nsamp": rng.choice([1, 5])})
+    elif comp.startswith("fn:Random"): par.update({"ntaxa": rng.choice([3, 5]), "ntrait": rng.choice([1, 2])})
+    elif comp.startswith("fn:"): par.update({"ntaxa": rng.choice([2, 5]), "nvrnt": rng.choice([5, 8]), "nsel": rng.choice([2, 4])})
     return par
 
 def gen_cases(rng, tier):
@@ -876,6 +1135,18 @@ def gen_cases(rng, tier):
         prog = [{"comp": c, "par": _rand_par(rng, c)} for c in (rng.choice(CLEAN_RNG) for _ in range(k))]
         cases.append({"kind": "isolated", "rngkind": rng.choice(["Generator", "RandomState", "MT"]), "rseed": rng.getrandbits(31), "skip": 0,
                       "h1": _rand_hist(rng), "h2": [["py", 3], ["np", 5]] + _rand_hist(rng), "prog": prog})
+    # --- the operators / helpers handed the caller's generator DIRECTLY: once more each with a Generator, a RandomState and None (the
+    # loops above already run each of them with both kinds and seeded with rng=None); the two predicate-only operators likewise
+    for comp in list(DIRECT_COMPS) + list(PRED_ONLY_COMPS):
+        kinds = ["Generator", "RandomState"] + ([] if (quick and comp not in PRED_ONLY_COMPS) else ["MT"])
+        if comp in PRED_ONLY_COMPS or not quick or rng.random() < 0.5:
+            for rk in kinds:
+                cases.append({"kind": "isolated", "rngkind": rk, "rseed": rng.getrandbits(31), "skip": rng.choice([0, 0, 3]),
+                              "h1": _rand_hist(rng), "h2": [["py", rng.randint(1, 30)], ["np", rng.randint(1, 30)]] + _rand_hist(rng),
+                              "prog": [{"comp": comp, "par": _rand_par(rng, comp)}]})
+        if comp in PRED_ONLY_COMPS or not quick:
+            cases.append({"kind": "repro", "seed": rng.choice(SEED_EDGE[:6] + [rng.getrandbits(40)]), "h1": _rand_hist(rng), "h2": [["np", rng.randint(1, 9)]] + _rand_hist(rng, True),
+                          "prog": [{"comp": comp, "par": _rand_par(rng, comp)}]})
     # --- object lifecycle: the component is obtained through a copy route, possibly BEFORE the seeding / perturbation (pre)
     def life_step(comp, life, pre):
         return {"comp": comp, "par": _rand_par(rng, comp), "life": life, "pre": bool(pre)}
@@ -962,6 +1233,7 @@ def emit_case(case, out):
             E.lst(out["py_key"], E.z), E.b(ok_meta), E.lst(rej, E.z), E.z(case["seed"]), E.lst(reqs, lambda n: E.opt(n, E.z)), E.opt(case.get("sbits"), E.z),
             out["py_pos"], E.lst(out["np_key"], E.z), out["np_pos"],
             E.lst2([[int(x) for x in l] for l in ents], E.z), k2, out["py_pos2"])
+    if any(st["comp"] in PRED_ONLY_COMPS for st in case["prog"]): return None        # no pybrops generator reference to compare with: predicate only
     names = E.lst(_static_names(case["prog"]), E.s)
     if k == "repro":
         A, B = out["A"], out["B"]
@@ -979,6 +1251,17 @@ def emit_case(case, out):
     return "(FP.obs_agree true %s (FP.mkobs %s %s %s %s))" % (names, E.b(out["py_moved"]), E.b(out["np_moved"]), E.b(out["ex_moved"]), E.b(same))
 
 # ---------------------------------------------------------------------------------------------- independent predicate
+def _draw_clauses(prog, outs, what):
+    """operators / helpers driven directly say whether the source they were handed moved and whether they changed their input"""
+    bad = []
+    for i, (st, o) in enumerate(zip(prog, outs)):
+        if st["comp"] in DRAW_CHECKED and isinstance(o, dict):
+            if o.get("consumed") is False:
+                bad.append("step %d (%s): %s was not consumed although every draw site of the call is reached on this input" % (i, st["comp"], what)); break
+            if o.get("fired") is False:
+                bad.append("step %d (%s): the operator returned its input unchanged on an input where an exchange / mutation must fire" % (i, st["comp"])); break
+    return bad
+
 def pred(case, out):
     if "exc" in out:
         return ["implementation raised %s: %s" % (out["exc"], out["msg"])]
@@ -1022,6 +1305,7 @@ def pred(case, out):
             else:
                 if B["np_end"] != F["np_end"] or B["py_end"] != F["py_end"]:
                     bad.append("global streams at the end of the seeded program differ between a used process and a fresh one")
+        bad += _draw_clauses(case["prog"], A["outs"], "the global numpy stream (random_state / rng = None after seeding)")
         if "R" in out:
             R = out["R"]
             for i, (a, b) in enumerate(zip(A["outs"], R["outs"])):
@@ -1038,6 +1322,7 @@ def pred(case, out):
         if a != b:
             bad.append("step %d (%s): result is not a function of the supplied generator's state" % (i, case["prog"][i]["comp"])); break
     if not bad and out["r1"] != out["r2"]: bad.append("supplied generator ends in different states")
+    bad += _draw_clauses(case["prog"], out["out1"], "the supplied %s" % case["rngkind"])
     if "fresh_exc" in out: bad.append("the execution in a fresh process raised %s: %s" % (out["fresh_exc"]["exc"], out["fresh_exc"]["msg"]))
     elif not bad:
         for i, (a, b) in enumerate(zip(out["out2"], out["outF"])):
@@ -1152,6 +1437,10 @@ for _k in ("Subset", "Binary", "Integer", "Real"):
     ENTRY_COVERED["breed.prot.sel.RandomSelection.Random%sSelection" % _k] = ["RandomSelProt" + ("" if _k == "Subset" else _k)]
     ENTRY_COVERED["breed.prot.sel.prob.RandomSelectionProblem.Random%sSelectionProblem.from_object" % _k] = ["RandomSelProt" + ("" if _k == "Subset" else _k)]
 ENTRY_COVERED["breed.prot.sel.prob.RandomSelectionProblem.RandomSelectionProblemMixin.from_object"] = ["RandomSelProt"]
+for _q, _cs in ENTRY_COVERED.items():          # ... and handed the caller's generator directly
+    _f = _q.rsplit(".", 1)[1]
+    if _q.startswith(("breed.prot.mate.util.", "core.util.mate.")): _cs.append("fn:" + _f)
+    elif _q.endswith(".from_object") and "Mixin" not in _q: _cs.append("fn:%s.from_object" % _q.split(".")[-2])
 ENTRY_COVERED["breed.prot.sel.SelectionProtocol.SelectionProtocol"] = ["SelProtSubset"]
 ENTRY_COVERED["breed.prot.sel.MateSelectionProtocol.MateSelectionProtocol"] = ["MateSelProtSubset"]
 ENTRY_COVERED["breed.prot.sel.OptimalContributionSelection.OptimalContributionSubsetSelection"] = ["OCSProblem"]
@@ -1256,6 +1545,37 @@ def audit_entry_points():
             "classes_inheriting_sharing_deepcopy": sum(1 for q in own if q not in want),
             "unimportable_modules": sorted(set(unimportable))}
 
+def audit_operators():
+    """every function / method of pymoo_addon that is handed random_state (a parameter of that name, a read of kwargs, or - for the operator
+    entry points _do / do - simply **kwargs passed on) must be driven directly by an operator component or skipped with a reason; fail closed"""
+    import inspect, pybrops.opt.algo.pymoo_addon as M
+    found = {}
+    for nm, ob in vars(M).items():
+        if getattr(ob, "__module__", None) != M.__name__: continue
+        if inspect.isfunction(ob):
+            if "random_state" in inspect.getsource(ob): found[nm] = ob
+        elif inspect.isclass(ob):
+            for mn, mo in vars(ob).items():
+                f = mo.__func__ if isinstance(mo, (classmethod, staticmethod)) else mo
+                if inspect.isfunction(f) and (mn in ("_do", "do") or "random_state" in inspect.getsource(f)): found["%s.%s" % (nm, mn)] = f
+    driven = {}
+    for comp, (st, _run) in OPERATOR_COMPS.items():
+        for n in st: driven.setdefault(n[len(_PA):], []).append(comp)
+    problems = []
+    for q in sorted(found):
+        if q in OPERATOR_SKIPPED: continue
+        own = [c for c in driven.get(q, []) if c[3:] == q or (q.endswith("._do") and c[3:] == q[:-4] + ".do")]
+        if not own: problems.append("pymoo_addon.%s is handed random_state but no operator component drives it directly: add one (OPERATOR_COMPS) or a reason (OPERATOR_SKIPPED)" % q)
+    for q in list(OPERATOR_SKIPPED) + sorted(driven):
+        if q not in found: problems.append("pymoo_addon.%s is classified but does not exist / is not handed random_state any more (stale entry)" % q)
+    if any(q.startswith("MutatorF.") for q in OPERATOR_SKIPPED):
+        try: M.MutatorF(numpy.arange(4), 0.5)
+        except TypeError: pass
+        else: problems.append("pymoo_addon.MutatorF can be constructed now: drive it directly (remove it from OPERATOR_SKIPPED)")
+    if problems: raise RuntimeError("operator audit: " + " || ".join(problems[:8]))
+    return {"audit": "pymoo_addon functions handed random_state", "found": len(found), "driven_directly": sum(1 for q in found if q not in OPERATOR_SKIPPED),
+            "skipped_with_reason": sorted(OPERATOR_SKIPPED), "components": len(OPERATOR_COMPS) + len(DIRECT_FN_COMPS)}
+
 def translate(repo, gen_dir):
     import os
     import translate.c08_entropy as T
@@ -1265,4 +1585,4 @@ def translate(repo, gen_dir):
     info["translator_selftest_assertions"] = n
     # kernel expressions of prng.seed / prng.spawn / the pymoo seeds (Gen/C08_Kernel.v); fail closed
     from translate import c08_kernel
-    return [info, c08_kernel.translate(repo, gen_dir), audit_entry_points()]
+    return [info, c08_kernel.translate(repo, gen_dir), audit_entry_points(), audit_operators()]
